@@ -93,30 +93,40 @@ def wrapping(repo, res):
     ic = repo.mod(UO).classes.get("_ImportCache")
     txt = norm(ic) if ic is not None else ""
     res.check("from unyt.array import unyt_array" in txt and "self._ua = unyt_array" in txt and "from unyt.array import unyt_quantity" in txt and "self._uq = unyt_quantity" in txt, "Unit.__mul__:classes", UO, "ua / uq are unyt_array / unyt_quantity", rid=r1)
-    # handlers that choose the class themselves
+    # functions that choose the class themselves: on every returning path the constructor is unyt_quantity exactly
+    # under a fact "<data>.ndim == 0" / "<data>.shape == ()" and unyt_array under its negation
+    from engine.sem import summarise
+
     af = repo.mod(AF)
-    for h, var in (("einsum", "cls"), ("take", "ret_cls")):
+
+    def by_shape(f, key, label):
+        n_q = n_a = 0
+        ok = True
+        found = []
+        for x in summarise(f):
+            if x.kind != "return" or not x.value:
+                continue
+            ctor = x.value.split("(", 1)[0]
+            if ctor not in ("unyt_quantity", "unyt_array"):
+                continue
+            zero = [(t, tr) for t, tr in x.facts if t.endswith(".ndim == 0") or t.endswith(".shape == ()") or (t.startswith("np.ndim(") and t.endswith(") == 0"))]
+            found.append((zero, ctor))
+            if ctor == "unyt_quantity":
+                n_q += 1
+                ok &= any(tr for _, tr in zero)
+            else:
+                n_a += 1
+                ok &= any(not tr for _, tr in zero)
+        res.check(ok and n_q >= 1 and n_a >= 1, key, f.where(), f"{label}: 0-d results are quantities, others arrays", "unyt_quantity iff the result is 0-d", found[:4], rid=r1)
+
+    for h in ("einsum", "take"):
         f = af.func(h)
         res.fn(f)
-        t = norm(f.node)
-        ok = ("if res.ndim == 0:\n        cls = unyt_quantity\n    else:\n        cls = unyt_array" in t) or ("ret_cls = unyt_quantity if res.ndim == 0 else unyt_array" in t)
-        res.check(ok, f"{h}:class", f.where(), f"np.{h}: 0-d results are quantities, others arrays", rid=r1)
+        by_shape(f, f"{h}:class", f"np.{h}")
     for name in ("unorm", "udot"):
         f = arr.func(name)
         res.fn(f)
-        ifs = [n for n in f.body if isinstance(n, ast.If) and norm(n.test).endswith(".shape == ()")]
-        ok = len(ifs) == 1 and "unyt_quantity(" in norm(ifs[0].body[0]) and any("unyt_array(" in norm(s) for s in f.body if isinstance(s, ast.Return))
-        res.check(ok, f"{name}:class", f.where(), f"{name}: 0-d results are quantities, others arrays", rid=r1)
-    for name, test in (("unyt_array.from_astropy", "isinstance(_arr.value, np.ndarray) and _arr.shape != ()"), ("unyt_array.from_pint", "isinstance(arr.magnitude, np.ndarray)")):
-        f = arr.func(name)
-        ifs = [n for n in f.body if isinstance(n, ast.If) and norm(n.test) == test]
-        ok = len(ifs) == 1 and "unyt_array(" in norm(ifs[0].body[0]) and "unyt_quantity(" in norm(ifs[0].orelse[0])
-        res.check(ok, f"{name}:class", f.where(), "foreign quantities become arrays or quantities according to their data", rid=r1)
-    # reshape of a quantity to a non-scalar shape gives an array
-    rs = arr.func("unyt_quantity.reshape")
-    t = norm(rs.node)
-    res.check("if shape == () or shape is None:\n        return super().reshape(shape, order=order)\n    else:\n        return unyt_array(self).reshape(shape, order=order)" in t, "quantity.reshape", rs.where(), "reshaping a quantity to a non-scalar shape yields a unyt_array", rid=r1)
-    res.note("handlers with out= return unyt_array(res, ...) unconditionally; a 0-d out target gives a 0-d unyt_array (recorded, not a rule instance)")
+        by_shape(f, f"{name}:class", name)
 
 
 def accessors(repo, res):
